@@ -140,6 +140,18 @@ theorem C08_entries_from_sets (pick : Entries → Nat) (ops : List DictOp) (e : 
         · right; subst h; simp
     · right; exact List.mem_cons_of_mem _ h
 
+/-- **C08 (Get, histories).** Whatever `Get q` returns after any history was set by a `Set` of that
+    history under a key equal to `q` — `Get` never returns a value for an unrelated key, and never
+    invents one. -/
+theorem C08_get_from_sets (pick pick' : Entries → Nat) (ops : List DictOp) (q v : GoVal)
+    (h : tableGet pick' (ops.foldl (dictStep pick) []) q = some v) :
+    ∃ k, goEqual q k = true ∧ DictOp.set k v ∈ ops := by
+  rcases C08_get_any pick' (ops.foldl (dictStep pick) []) q with ⟨_, hn⟩ | ⟨e, he, hq, hg⟩
+  · rw [hn] at h; exact absurd h (by simp)
+  · rw [hg] at h
+    have hv : e.2 = v := by simpa using h
+    exact ⟨e.1, hq, hv ▸ C08_entries_from_sets pick ops e he⟩
+
 /-- Non-vacuity: an int key set beside a string key — the string query's candidates are untouched. -/
 example : matching (dictSetSpec [(.str [97], .int 1)] (.int 5) (.int 2)) (.str [97]) =
     matching [(.str [97], .int 1)] (.str [97]) := by
